@@ -121,6 +121,7 @@ class Attr:
     def __init__(self, cid, owner, kind, name, values=None):
         self.cid, self.owner, self.kind, self.name, self.values = cid, owner, kind, name, values
         self.alive = True
+        self.invertible = False
 
 
 class DS:
@@ -191,7 +192,7 @@ class World:
             if coords is not None:
                 cid = d.world_component_ids[0]
                 rec.worlds.append(self.new_attr(cid, i, "world", "D%d.world0" % i, coords[1] * rec.pixels[0].values + coords[2]))
-            if rng.random() < 0.3:
+            if rng.random() < 0.4:
                 self.add_derived(rec, log=False)
         members = [r for r in self.ds if rng.random() < 0.75]
         if not members:
@@ -200,7 +201,9 @@ class World:
         for r in members:
             r.member = True
         self.log.append(["init", [{"label": "D%d" % r.idx, "shape": list(r.shape), "coords": r.coords,
-                                   "mains": [a.name for a in r.mains], "derived": [a.name for a in r.derived],
+                                   "mains": [a.name for a in r.mains],
+                                   "derived": [[a.name, [x.name for x in r.derived_triples[a][0]],
+                                                "with_inverse" if r.derived_triples[a][2] else "no_inverse"] for a in r.derived],
                                    "member": r.member} for r in self.ds]])
 
     def build_fixed(self):
@@ -239,22 +242,29 @@ class World:
         return a
 
     def add_derived(self, rec, log=True):
+        """dataset-internal link: a derived column, for one input with probability 0.6 created WITH an inverse
+        (ComponentLink([x], t, using=f, inverse=g)); the collection must then also use g: t -> x"""
         alive = [a for a in rec.mains if a.alive]
-        ins = self.rng.sample(alive, min(len(alive), self.rng.choice([1, 2])))
+        ins = self.rng.sample(alive, min(len(alive), self.rng.choice([1, 1, 2])))
         k = next(self.kcount)
         fn = make_fn(k, len(ins))
+        inv = make_shift(k) if (len(ins) == 1 and self.rng.random() < 0.6) else None
         name = "der%d" % len(rec.derived)
         cid = ComponentID(name, parent=rec.data)
-        rec.data.add_component_link(ComponentLink([a.cid for a in ins], cid, using=fn))
+        if inv is not None:
+            rec.data.add_component_link(ComponentLink([ins[0].cid], cid, using=fn, inverse=inv))
+        else:
+            rec.data.add_component_link(ComponentLink([a.cid for a in ins], cid, using=fn))
         a = self.new_attr(cid, rec.idx, "derived", "D%d.%s" % (rec.idx, name), fn(*[x.values for x in ins]))
+        a.invertible = inv is not None
         rec.derived.append(a)
-        rec.derived_triples[a] = (ins, fn)
+        rec.derived_triples[a] = (ins, fn, inv)
         if log:
-            self.log.append(["addderived", a.name, [x.name for x in ins], k])
+            self.log.append(["addderived", a.name, [x.name for x in ins], k, "with_inverse" if inv else "no_inverse"])
         return a
 
     # ------------------------------------------------------------ oracle
-    def triples_for(self):
+    def triples_for(self, internal_inverses=True):
         out = []
         for (_obj, _kind, trs) in self.live:
             out.extend(trs)
@@ -265,10 +275,25 @@ class World:
                 _, a, b = r.coords
                 out.append(([r.pixels[0].cid], r.worlds[0].cid, lambda p, a=a, b=b: a * p + b))
                 out.append(([r.worlds[0].cid], r.pixels[0].cid, lambda w, a=a, b=b: (w - b) / a))
-            for der, (ins, fn) in r.derived_triples.items():
+            for der, (ins, fn, inv) in r.derived_triples.items():
                 if der.alive:
                     out.append(([x.cid for x in ins], der.cid, fn))
+                    if inv is not None and internal_inverses:
+                        out.append(([der.cid], ins[0].cid, inv))
         return out
+
+    def depths_only(self, rec, triples):
+        depth = {a.cid: 0 for a in rec.mains if a.alive}
+        for a in rec.pixels + rec.worlds:
+            depth[a.cid] = 0
+        changed = True
+        while changed:
+            changed = False
+            for frm, to, fn in triples:
+                if to not in depth and all(f in depth for f in frm):
+                    depth[to] = 1
+                    changed = True
+        return depth
 
     def closure(self, rec, triples, derived_as_base):
         base = {}
@@ -422,6 +447,20 @@ class World:
             obj = MultiLink([a.cid, b.cid], [c.cid, d.cid], forwards=fw, backwards=bw if both else None,
                             labels2=["p", "q"], data1=self.ds[a.owner].data, data2=self.ds[c.owner].data)
             return obj, kind, trs, ["addmultilink", [a.name, b.name], [c.name, d.name], [k1, k2, k3, k4], both]
+        if kind == "addtoderived":
+            ders = [a for a in self.linkable() if a.kind == "derived" and a.invertible]
+            if not ders:
+                return None
+            t = rng.choice(ders)
+            others = [a for a in self.linkable() if a.owner is not None and a.owner != t.owner and a.kind in ("main", "pixel", "world")]
+            if not others:
+                return None
+            y = rng.choice(others)
+            sub = rng.choice(["add1", "add1", "addsame", "add2way", "add1inv"])
+            made = self.make_link(sub, given=[y, t])
+            if made is None:
+                return None
+            return made[0], made[1], made[2], ["addtoderived"] + made[3]
         if kind == "addaligned":
             pairs = [(r, s) for r in self.ds for s in self.ds if r.idx < s.idx and r.shape == s.shape and
                      (r.member or not r.removed) and (s.member or not s.removed)]
@@ -435,7 +474,7 @@ class World:
         raise ValueError(kind)
 
     LINK_KINDS = ["add1", "add1", "add1", "add1inv", "addsame", "addsame", "add2way", "addmulti", "addmulti",
-                  "addmultilink", "addaligned"]
+                  "addmultilink", "addaligned", "addtoderived", "addtoderived"]
 
     def drop_links_mentioning(self, dead_cids):
         dead = set(dead_cids)
@@ -505,7 +544,7 @@ class World:
             grow = True
             while grow:
                 grow = False
-                for der, (ins, fn) in r.derived_triples.items():
+                for der, (ins, fn, _inv) in r.derived_triples.items():
                     if der.alive and der not in dead and any(x in dead for x in ins):
                         dead.append(der)
                         grow = True
@@ -636,6 +675,9 @@ def observe(w, op_label, hist_hash):
     """Quiescent-point check.  Returns False when the history must be abandoned."""
     ctx = w.ctx
     triples = w.triples_for()
+    triples_no_internal_inverse = None
+    if any(r.member and any(d.alive and d.invertible for d in r.derived) for r in w.ds):
+        triples_no_internal_inverse = w.triples_for(internal_inverses=False)
     ext_triples = [t for e in w.live for t in e[2]]
     dead_cids = {a.cid: a for a in w.attrs if not a.alive}
     gone_ds_cids = {}
@@ -700,6 +742,7 @@ def observe(w, op_label, hist_hash):
             continue
         d = rec.data
         depth, cands, exploded = w.expected(rec, triples)
+        no_inv = w.depths_only(rec, triples_no_internal_inverse) if triples_no_internal_inverse is not None else None
         ctx.count("quiescent_dataset_checks")
         # (4) the derivable-attribute table
         try:
@@ -755,12 +798,16 @@ def observe(w, op_label, hist_hash):
             elif a.owner is not None and foreign and w.ds[a.owner].removed and not w.ds[a.owner].member:
                 cls = "attr_of_removed_dataset"
             ctx.count("read:" + cls)
+            via_internal_inverse = bool(foreign and exp_reach and no_inv is not None and cid not in no_inv)
+            if via_internal_inverse:
+                ctx.count("read:reachable_only_through_inverted_internal_link")
             if foreign and exp_reach:
                 ctx.count("read_foreign_reachable_after:" + op_class)
             if can != exp_reach:
                 ctx.violation(dict(base_sig, kind="reachability",
                                    observed="readable_but_no_chain" if can else "unreadable_but_chain_exists",
-                                   attr_kind=a.kind, attr_class=cls, expected_depth=depth_bucket(dep)),
+                                   attr_kind=a.kind, attr_class=cls, expected_depth=depth_bucket(dep),
+                                   only_through_inverted_internal_link=via_internal_inverse),
                               hist(dataset=d.label, attr=a.name, live_links=[e[1] for e in w.live]))
                 ok = False
                 continue
